@@ -291,21 +291,122 @@ theorem argsort_mem (mm : List (Int × Int)) : ∀ p ∈ argsortPairs mm, mm[p.2
   have ⟨hlt, he⟩ := List.mem_zipIdx' hp'
   rw [List.getElem?_eq_getElem hlt, he]
 
-theorem isMonotone_of_pairwise : ∀ (S : List (Int × Int)), S.Pairwise (fun a b => lexLe a b = true) → isMonotone S = true
-  | [], _ => rfl
-  | [_], _ => rfl
-  | a :: b :: t, h => by
-    rw [List.pairwise_cons] at h
-    simp only [isMonotone, Bool.and_eq_true]
-    exact ⟨h.1 b (List.mem_cons_self ..), isMonotone_of_pairwise (b :: t) h.2⟩
+/-- the overlap test of the loop as a boolean -/
+def okFrom : Option Int → List (Int × Int) → Bool
+  | _, [] => true
+  | last, (mn, mx) :: t =>
+    !(match last with
+      | some l => decide (mn < l)
+      | none => false) && okFrom (some mx) t
 
-/-- the test `if not sorted_minmax.is_monotonic_increasing` comes after sorting by the same order: it never fires -/
-theorem argsort_monotone (mm : List (Int × Int)) : isMonotone ((argsortPairs mm).map (·.1)) = true :=
-  isMonotone_of_pairwise _ (argsort_sorted mm)
+def lastMax (last : Option Int) (S : List (Int × Int)) : Option Int :=
+  match S.getLast? with
+  | some x => some x.2
+  | none => last
 
-theorem divisionsOfMinMax_eq (mm : List (Int × Int)) :
-    divisionsOfMinMax mm = .known (divsOf ((argsortPairs mm).map (·.1))) ((argsortPairs mm).map (·.2)) := by
-  simp [divisionsOfMinMax, argsort_monotone]
+theorem lastMax_cons (last : Option Int) (a : Int × Int) (t : List (Int × Int)) :
+    lastMax last (a :: t) = lastMax (some a.2) t := by
+  cases t with
+  | nil => simp [lastMax]
+  | cons b t =>
+    simp only [lastMax, List.getLast?_cons_cons]
+    cases h : (b :: t).getLast? with
+    | none => simp at h
+    | some x => rfl
+
+theorem divLoop_eq : ∀ (S : List (Int × Int)) (last : Option Int),
+    divLoop last S = if okFrom last S then some (S.map (·.1), lastMax last S) else none
+  | [], last => by simp [divLoop, okFrom, lastMax]
+  | (mn, mx) :: t, last => by
+    have ih := divLoop_eq t (some mx)
+    have hl : lastMax last ((mn, mx) :: t) = lastMax (some mx) t := lastMax_cons last (mn, mx) t
+    rw [hl]
+    cases last with
+    | none =>
+      simp only [divLoop, okFrom, ih, Bool.false_eq_true, ↓reduceIte, Bool.not_false, Bool.true_and]
+      cases okFrom (some mx) t <;> simp
+    | some l =>
+      simp only [divLoop, okFrom, ih]
+      by_cases h : mn < l
+      · simp [h]
+      · simp only [h, decide_false, Bool.false_eq_true, ↓reduceIte, Bool.not_false, Bool.true_and]
+        cases okFrom (some mx) t <;> simp
+
+theorem okFrom_some_iff (x : Int) : ∀ (S : List (Int × Int)) (l : Int),
+    okFrom (some l) S = true ↔ Adj (fun a b => a.2 ≤ b.1) ((x, l) :: S)
+  | [], l => by simp [okFrom, Adj]
+  | (mn, mx) :: t, l => by
+    have ih := okFrom_some_iff mn t mx
+    simp only [okFrom, Bool.and_eq_true, Bool.not_eq_true', decide_eq_false_iff_not, Int.not_lt, Adj, ih]
+
+theorem okFrom_none_iff : ∀ (S : List (Int × Int)), okFrom none S = true ↔ Adj (fun a b => a.2 ≤ b.1) S
+  | [] => by simp [okFrom, Adj]
+  | (mn, mx) :: t => by
+    have := okFrom_some_iff mn t mx
+    simp only [okFrom, Bool.not_false, Bool.true_and, this]
+
+theorem divsOf_eq_of_lastMax (S : List (Int × Int)) (l : Int) (h : lastMax none S = some l) :
+    S.map (·.1) ++ [l] = divsOf S := by
+  unfold lastMax at h
+  unfold divsOf
+  cases hg : S.getLast? with
+  | none => rw [hg] at h; simp at h
+  | some x => rw [hg] at h; simp only [Option.some.injEq] at h; simp [h]
+
+/-- `_divisions_from_statistics` on number pairs, characterised: known divisions (every min in sorted order, then the
+    last max; reading order = the sort index) exactly when no sorted range starts before the previous one ends -/
+theorem divisionsOfMinMax_eq (mm : List (Int × Int)) (hne : mm ≠ []) :
+    divisionsOfMinMax mm =
+      if okFrom none ((argsortPairs mm).map (·.1)) then
+        .known (divsOf ((argsortPairs mm).map (·.1))) ((argsortPairs mm).map (·.2))
+      else .unknown mm.length none := by
+  unfold divisionsOfMinMax
+  simp only [divLoop_eq]
+  cases hok : okFrom none ((argsortPairs mm).map (·.1)) with
+  | false => simp
+  | true =>
+    simp only [↓reduceIte]
+    have hS : (argsortPairs mm).map (·.1) ≠ [] := by
+      intro he
+      have := (argsort_fst_perm mm).length_eq
+      rw [he] at this
+      exact hne (List.length_eq_zero_iff.mp this.symm)
+    cases hl : lastMax none ((argsortPairs mm).map (·.1)) with
+    | none =>
+      exfalso
+      unfold lastMax at hl
+      cases hg : ((argsortPairs mm).map (·.1)).getLast? with
+      | none => exact hS (List.getLast?_eq_none_iff.mp hg)
+      | some x => rw [hg] at hl; simp at hl
+    | some l => simp only [divsOf_eq_of_lastMax _ l hl]
+
+theorem divisionsOfMinMax_known (mm : List (Int × Int)) (hne : mm ≠ []) (d : List Int) (σ : List Nat)
+    (h : divisionsOfMinMax mm = .known d σ) :
+    Adj (fun a b => a.2 ≤ b.1) ((argsortPairs mm).map (·.1)) ∧ d = divsOf ((argsortPairs mm).map (·.1)) ∧
+      σ = (argsortPairs mm).map (·.2) := by
+  rw [divisionsOfMinMax_eq mm hne] at h
+  split at h
+  · rename_i hok
+    simp only [DivOut.known.injEq] at h
+    exact ⟨(okFrom_none_iff _).mp hok, h.1.symm, h.2.symm⟩
+  · simp at h
+
+/-- consecutive non-overlap of well-formed ranges is non-overlap of all pairs -/
+theorem pairwise_of_adj_wf : ∀ (S : List (Int × Int)), (∀ s ∈ S, s.1 ≤ s.2) → Adj (fun a b => a.2 ≤ b.1) S →
+    S.Pairwise (fun a b => a.2 ≤ b.1)
+  | [], _, _ => List.Pairwise.nil
+  | [_], _, _ => by simp
+  | a :: b :: t, hwf, hadj => by
+    have ih := pairwise_of_adj_wf (b :: t) (fun s hs => hwf s (List.mem_cons_of_mem _ hs)) hadj.2
+    refine List.pairwise_cons.mpr ⟨?_, ih⟩
+    intro x hx
+    have hab : a.2 ≤ b.1 := hadj.1
+    rcases List.mem_cons.mp hx with rfl | hx
+    · exact hab
+    · have hb := hwf b (List.mem_cons_of_mem _ (List.mem_cons_self ..))
+      have hbx : b.2 ≤ x.1 := (List.pairwise_cons.mp ih).1 x hx
+      show a.2 ≤ x.1
+      omega
 
 /-- the statistics, re-read in the order of the sort index, describe the files picked in that order -/
 theorem within_sorted (mm : List (Int × Int)) (files : List (List Int)) (hw : Within mm files) (r : List (List Int))
@@ -630,5 +731,73 @@ theorem chunks_map {α β} (f : α → β) (step : Nat) : ∀ (fuel : Nat) (l : 
 theorem sum_flatten_nat : ∀ (l : List (List Nat)), l.flatten.sum = (l.map List.sum).sum
   | [] => rfl
   | a :: t => by simp [List.sum_append, sum_flatten_nat t]
+
+/-! ### 6. complete statistics -/
+
+theorem colsOf_length : ∀ (agg : List AggFile) (cs : List (Option (Int × Int))), colsOf agg = some cs → cs.length = agg.length
+  | [], cs, h => by simp [colsOf] at h; simp [h]
+  | f :: t, cs, h => by
+    simp only [colsOf] at h
+    split at h
+    · rename_i c r hc hr
+      simp only [Option.some.injEq] at h
+      subst h
+      simp [colsOf_length t r hr]
+    · simp at h
+
+theorem allPresent_length : ∀ (cs : List (Option (Int × Int))) (mm : List (Int × Int)), allPresent cs = some mm → mm.length = cs.length
+  | [], mm, h => by simp [allPresent] at h; simp [h]
+  | some a :: t, mm, h => by
+    simp only [allPresent] at h
+    split at h
+    · rename_i r hr
+      simp only [Option.some.injEq] at h
+      subst h
+      simp [allPresent_length t r hr]
+    · simp at h
+  | none :: t, mm, h => by simp [allPresent] at h
+
+theorem completeStats_length (agg : List AggFile) (mm : List (Int × Int)) (h : completeStats agg = some mm) :
+    mm.length = agg.length := by
+  unfold completeStats at h
+  split at h
+  · rename_i cs hcs
+    rw [allPresent_length cs mm h, colsOf_length agg cs hcs]
+  · simp at h
+
+theorem divisionsFromStatistics_known (agg : List AggFile) (d : List Int) (σ : List Nat)
+    (h : divisionsFromStatistics agg = .known d σ) :
+    ∃ mm, completeStats agg = some mm ∧ agg ≠ [] ∧ divisionsOfMinMax mm = .known d σ := by
+  unfold divisionsFromStatistics at h
+  split at h
+  · simp at h
+  · rename_i a t
+    split at h
+    · simp at h
+    · rename_i cs hcs
+      split at h
+      · rename_i mm hmm
+        exact ⟨mm, by simp [completeStats, hcs, hmm], by simp, h⟩
+      · split at h <;> simp at h
+
+theorem divisionsFromStatistics_complete (agg : List AggFile) (mm : List (Int × Int)) (hc : completeStats agg = some mm)
+    (hne : agg ≠ []) : divisionsFromStatistics agg = divisionsOfMinMax mm := by
+  unfold completeStats at hc
+  split at hc
+  · rename_i cs hcs
+    cases agg with
+    | nil => exact absurd rfl hne
+    | cons a t => simp only [divisionsFromStatistics, hcs, hc]
+  · simp at hc
+
+/-- reading the statistics in the order of the sort index gives the sorted statistics -/
+theorem pick_argsort (mm : List (Int × Int)) :
+    pick mm ((argsortPairs mm).map (·.2)) = some ((argsortPairs mm).map (·.1)) := by
+  have hmem := argsort_mem mm
+  generalize argsortPairs mm = srt at hmem
+  induction srt with
+  | nil => rfl
+  | cons p t ih =>
+    simp only [List.map_cons, pick, hmem p (List.mem_cons_self ..), ih (fun q hq => hmem q (List.mem_cons_of_mem _ hq))]
 
 end Dx.PqStats
